@@ -601,7 +601,6 @@ class RefRun:
         self.version.append(dec.version)
     self.first_overwrite = dec.first_overwrite
     self.fps = DF if self.drop else NDF
-    # coalesce versions with identical pictures is not needed: comparisons are cached by version
     n = len(self.recv)
     boundary = {"PAC", "CR", "EDM", "EOC", "RCL", "RDC", "RU2", "RU3", "RU4", "ENM"}
     transparent = {R.DUPLICATE, R.PADDING, R.OTHER_CHANNEL, R.IGNORED}
@@ -623,7 +622,6 @@ class RefRun:
       else:
         in_head = False
       self.burst[i] = b
-    self.line_burst = list(self.burst)
     # the same without the line rule (classification only)
     b = 0
     in_head = False
